@@ -67,6 +67,10 @@ fn main() {
         #[cfg(feature = "r1cs")]
         "r1cs.hints" => gadgets::hints(&mut cx),
         #[cfg(feature = "r1cs")]
+        "r1cs.lazy" => gadgets::lazy(&mut cx),
+        #[cfg(feature = "r1cs")]
+        "r1cs.alloc" => gadgets::alloc(&mut cx),
+        #[cfg(feature = "r1cs")]
         "r1cs.d6replay" => { println!("{}", if gadgets::d6_replay() { "D6 reproduces" } else { "D6 does not reproduce" }); return; }
         "all" => {
             field::probe_fq(&mut cx, quick); field::probe_fr(&mut cx, quick); field::probe_fp(&mut cx, quick);
